@@ -6,7 +6,8 @@
   functions `Row → Tern`) and ALL cuttings of the outer record range into worker chunks, i.e. for every
   `--cpu` value and every table size.  The modelled operator set is: WHERE, select-list projection,
   CROSS / INNER / LEFT / RIGHT / FULL joins, USING / NATURAL merge, recursive CTE with UNION ALL.
-  (LATERAL is checked on the implementation directly by the correspondence harness.)
+  LATERAL: per-left-row application; its empty-left-table header defect (F15) is stated, witnessed and
+  bounded by `lateral_spec_partial` below, and checked on the implementation by a direct law.
 -/
 import Csvq.Lemmas.Rel
 namespace Csvq.C03
@@ -92,6 +93,29 @@ theorem inner_length (L R : List Row) (c : Cond) :
   | cons l ls ih =>
     simp only [List.flatMap_cons, List.length_append, List.length_map, List.map_cons, List.sum_cons, ih,
       List.countP_eq_length_filter]
+
+/-- exact multiplicities: the merged row `l ++ r` occurs (copies of l) × (copies of r) times when the
+    condition is TRUE on it, and not at all otherwise (left table rectangular, so that a merged row
+    splits in one way only) -/
+theorem inner_count (wl : Nat) (L R : List Row) (c : Cond) (hL : ∀ l, l ∈ L → l.length = wl)
+    (l r : Row) (hl : l.length = wl) :
+    (innerSpec L R c).count (l ++ r) = if c (l ++ r) = .T then L.count l * R.count r else 0 := by
+  unfold innerSpec
+  induction L with
+  | nil => simp
+  | cons l' ls ih =>
+    have ih' := ih (fun x hx => hL x (List.mem_cons_of_mem _ hx))
+    simp only [List.flatMap_cons, List.count_append, ih', List.count_cons]
+    by_cases hll : l' = l
+    · subst hll
+      rw [count_map_append_left, count_filter_ite]
+      by_cases hT : c (l' ++ r) = .T
+      · simp only [hT, decide_true, if_true, BEq.rfl]
+        rw [Nat.add_mul, Nat.one_mul, Nat.add_comm]
+      · simp [hT]
+    · rw [count_map_append_other l l' r (by rw [hL l' (List.mem_cons_self ..), hl]) hll]
+      have : (l' == l) = false := by simpa using hll
+      simp [this]
 
 /-! ## OUTER JOINs: outer joins pad exactly the unmatched rows with NULLs -/
 
@@ -372,6 +396,37 @@ theorem using_merged_cell (w : Nat) (pairs : List (Nat × Nat)) (r out : Row) (h
       have hlen := mapOpt_length _ _ _ hm
       rw [List.getElem?_append_left (by omega)]
       exact mapOpt_get _ _ _ hm k hk
+
+/-! ## LATERAL: per-left-row application — the header is lost when the left table is empty (finding F15)
+
+  Full statement (does NOT hold for the current code):
+    theorem lateral_spec (w) (L) (app) (hw : ∀ l, (app l).1 = w) : lateralImpl L app = lateralSpec w L app
+  The code assigns the result header inside the per-record callback (`if rIdx == 0 { hfields = … }`), so
+  for `L = []` the header has width 0 instead of `w`.  Reproducer (law `lateral_empty_left_header`):
+    DECLARE le VIEW (a, b); DECLARE lt VIEW (k, ob); INSERT INTO lt VALUES (1,'p'),(2,'q');
+    SELECT * FROM le AS e CROSS JOIN LATERAL (SELECT t.ob FROM lt AS t WHERE t.k = e.a) AS s;   -- no header -/
+
+/-- what does hold: with a non-empty left table LATERAL is the per-left-row application, header included;
+    the rows are right for every left table -/
+theorem lateral_spec_partial (w : Nat) (L : List Row) (app : Row → Nat × List Row)
+    (hw : ∀ l, (app l).1 = w) :
+    (lateralImpl L app).2 = (lateralSpec w L app).2 ∧ (L ≠ [] → lateralImpl L app = lateralSpec w L app) := by
+  have hrows : (lateralImpl L app).2 = (lateralSpec w L app).2 := by
+    unfold lateralImpl lateralSpec
+    simp only [List.flatMap]
+  refine ⟨hrows, ?_⟩
+  intro hne
+  cases L with
+  | nil => exact absurd rfl hne
+  | cons l ls =>
+    apply Prod.ext
+    · simp only [lateralImpl, lateralSpec, hw]
+    · exact hrows
+
+/-- the concrete witness: an empty left table of header width 2, a sub-select of width 1 -/
+theorem lateral_header_counterexample :
+    ∃ (w : Nat) (app : Row → Nat × List Row), (∀ l, (app l).1 = w) ∧ lateralImpl [] app ≠ lateralSpec w [] app :=
+  ⟨3, fun _ => (3, []), fun _ => rfl, by decide⟩
 
 /-! ## recursive CTE with UNION ALL -/
 
